@@ -117,6 +117,8 @@ def work(job):
             for sd in (1, 2, 3):
                 rc, so, se, to = common.run_proc(['spin', '-T', '-n%d' % sd, '-u40000', cid + '.pml'], cwd=outdir, timeout=120)
                 if to: rec['bad'].append(('spin-simulation-hangs', {})); break
+                if rc is not None and rc < 0 and 'rror:' not in (so or '') + (se or ''):
+                    rec['skip'] = True; rec['spin_crashed'] = rc; break      # the simulator itself died from a signal (seen: SIGSEGV in spin 6.5 on events with data fields): nothing can be judged
                 if rc != 0 or 'rror:' in (so or '') or 'rror:' in (se or ''):
                     m = re.search(r'rror: ([^\n]*)', (so or '') + (se or ''))
                     why = re.sub(r'[^a-z_]+', '-', (m.group(1) if m else 'unknown').lower())[:40]
@@ -127,6 +129,9 @@ def work(job):
                     rec['seed_dependent'] = True
                 steps, final = parse_spin(sims[0], ch)
                 a = proj_interp(pi['steps']); b = proj_model(steps, evname)
+                if re.search(r'^\s*40000:\s+proc ', sims[0], re.M):
+                    # the simulation ran into the step bound (-u40000): the trace is a prefix, its last step incomplete
+                    b = b[:-1]; a = a[:len(b)]; final = None; rec['truncated'] = True
                 if not ch.transitions():
                     # a machine without transitions prints no selection trace in the model: events that enable nothing are invisible there
                     a = [x for x in a if x[1]]; b = [x for x in b if x[1]]
@@ -191,6 +196,8 @@ def main(tier, replay):
     for out in common.pmap(work, jobs):
         for rec in out:
             chk.count()
+            if rec.get('spin_crashed'): chk.add('spin_simulator_crashed', 1)
+            if rec.get('truncated'): chk.add('simulations_cut_at_the_step_bound', 1)
             if rec.get('skip'): sk += 1; continue
             items += rec['items']
             if rec.get('seed_dependent'): sd += 1
